@@ -24,7 +24,7 @@ fn seg_dist(p: &nalgebra::Vector3<f64>, a: &nalgebra::Vector3<f64>, b: &nalgebra
 fn pose_close(a: &Pose, b: &Pose) -> bool { (a.translation.vector - b.translation.vector).norm() <= 1e-6 && a.rotation.angle_to(&b.rotation) <= 1e-6 }
 
 pub struct Scene { pub name: String, pub include: bool, pub cost: f64, pub depth: usize, pub step_m: f64, pub q_land: Joints, pub from: Joints, pub offs: Vec<[f64; 3]>, pub park_off: [f64; 3],
-                   pub obstacle: i32 /* -1 none, k >= 0: at the tool when the TCP is at fraction (k+1)/8 of the stroke polyline */, pub obstacle_h: f32, pub pools: Vec<usize> }
+                   pub obstacle: i32 /* -1 none, k >= 0: at the tool when the TCP is at fraction (k+1)/8 of the stroke polyline */, pub obstacle_h: f32, pub pools: Vec<usize>, pub default_coefs: bool }
 
 fn polyline_point(given: &Vec<Pose>, frac: f64) -> Pose {
     // point at `frac` of the polyline through the given poses (by segment index, then linearly inside the segment)
@@ -50,7 +50,7 @@ pub fn run_scene(sc: &Scene, bad: &mut Vec<String>) -> usize {
     else { vec![CollisionBody { mesh: cube(0.05), pose: Isometry3::translation(5.0, 5.0, 5.0) }] };
     let k = robot(env);
     let cons = k.constraints().clone().expect("limits");
-    let coefs = DEFAULT_TRANSITION_COSTS;
+    let coefs: Joints = if sc.default_coefs { DEFAULT_TRANSITION_COSTS } else { [2.0, 1.5, 1.25, 0.75, 0.5, 3.0] };
     let planner = Cartesian { robot: &k, check_step_m: sc.step_m, check_step_rad: 0.05, max_transition_cost: sc.cost, transition_coefficients: coefs, linear_recursion_depth: sc.depth,
         rrt: RRTPlanner { step_size_joint_space: 0.05, max_try: 2000, debug: false }, include_linear_interpolation: sc.include, debug: false };
     let mut outcomes: Vec<bool> = Vec::new(); let mut cases = 0;
@@ -117,7 +117,7 @@ pub fn c12(c: &Case) {
     let mut bad: Vec<String> = Vec::new(); let mut cases = 0;
     let want = c.s("scene");
     let base = |name: &str, include: bool, cost: f64, depth: usize, step_m: f64, obstacle: i32, h: f32| Scene { name: name.to_string(), include, cost, depth, step_m, q_land: [0.2, 0.3, -0.2, 0.4, 0.8, -0.3], from: [0.5, 0.1, -0.1, 0.4, 0.8, -0.3],
-        offs: vec![[0.0, 0.0, -0.05], [0.06, 0.0, -0.05], [0.06, 0.06, -0.05]], park_off: [0.06, 0.06, 0.0], obstacle, obstacle_h: h, pools: vec![1, 4, 2] };
+        offs: vec![[0.0, 0.0, -0.05], [0.06, 0.0, -0.05], [0.06, 0.06, -0.05]], park_off: [0.06, 0.06, 0.0], obstacle, obstacle_h: h, pools: vec![1, 4, 2], default_coefs: false };
     let all = [base("free", true, 0.2, 6, 0.02, -1, 0.0), base("free", false, 0.2, 6, 0.02, -1, 0.0), base("grazing", true, 0.2, 6, 0.02, -1, 0.0),
                base("blocking", true, 0.2, 6, 0.02, 3, 0.02), base("midway", true, 0.2, 6, 0.01, 2, 0.008), base("midway", false, 0.2, 6, 0.01, 2, 0.008),
                base("rrtclose", true, 1e-4, 0, 0.05, -1, 0.0), base("bisect", true, 0.012, 6, 0.05, -1, 0.0),
@@ -139,7 +139,7 @@ pub fn c12(c: &Case) {
             let last = *offs.last().unwrap();
             let include = match c.vo("include") { Some(v) => v[0] != 0.0, None => r.next() < 0.6 };
             let sc = Scene { name: "random".to_string(), include, cost: r.pick(&[0.01, 0.03, 0.1, 0.3]), depth: r.pick(&[0usize, 1, 3, 6]), step_m: r.pick(&[0.01, 0.03, 0.1, 0.5]),
-                q_land: ql, from, offs, park_off: [last[0], last[1], 0.0], obstacle: r.pick(&[-1, -1, 0, 2, 4, 6]), obstacle_h: r.pick(&[0.008f32, 0.02]), pools: vec![r.pick(&[1usize, 3])] };
+                q_land: ql, from, offs, park_off: [last[0], last[1], 0.0], obstacle: r.pick(&[-1, -1, 0, 2, 4, 6]), obstacle_h: r.pick(&[0.008f32, 0.02]), pools: vec![r.pick(&[1usize, 3])], default_coefs: r.next() < 0.3 };
             let before = bad.len(); cases += run_scene(&sc, &mut bad); if bad.len() == before { ok += 1; }
         }
         println!("note=random scenes without finding {} ; scenes (all kinds) in which planning succeeded {}", ok, SUCC.load(std::sync::atomic::Ordering::Relaxed));
